@@ -7,9 +7,14 @@
     * `C14_monotone`: nothing is ever removed from any function's IR (it only gains names);
     * `C14_unchanged_without_resolvable`: with no resolvable call the IR is untouched and a second
       generation returns equal results (`C14_idempotent_without_resolvable`).
+    * depth-one fragment (every resolvable callee is a leaf): only generated callers change
+      (`C14_depthOne_callee_untouched`), to exactly their results
+      (`C14_depthOne_caller_becomes_result`), and a second generation returns the same results
+      over an unchanged store (`C14_depthOne_second_generation_same`).
 -/
 import RattrProofs.Lemmas.Results
 import RattrProofs.Lemmas.ResultsCex
+import RattrProofs.Lemmas.ResultsDepthOne
 
 namespace Rattr.C14
 open Rattr Rattr.Results Rattr.Cex
@@ -59,5 +64,61 @@ theorem C14_full_false : ¬ C14_full := by
 /-- non-vacuity of the positive theorems: a program with calls none of which resolves. -/
 example : ∃ P : Prog, (∀ c, P.resolve c = none) ∧ (fnAt P 0).calls ≠ [] :=
   ⟨{ fns := [⟨iface ["a"], [call 0 "print" ["a"]]⟩], resolve := fun _ => none }, fun _ => rfl, by decide⟩
+
+/-! ### the depth-one fragment: the precise extent of the mutation -/
+
+/-- In a depth-one program result generation changes only the entries of roots that have a
+resolvable call: leaves (functions without resolvable call — in particular every callee) and
+functions that are not generated keep their IR. -/
+theorem C14_depthOne_callee_untouched (P : Prog) (hP : DepthOne P) (order : List Key)
+    (σ σ' : Store) (rs : List (Key × IrSets)) (h : generate P order σ = .ok (rs, σ')) (k : Key)
+    (hk : IsLeaf P k ∨ IsCallee P k ∨ k ∉ order) : σ' k = σ k := by
+  obtain ⟨_, _, hI, _, hout⟩ := generate_depthOne hP order σ σ' rs (Inv.refl P σ) h
+  rcases hk with hk | hk | hk
+  · exact hI.leaf hk
+  · exact hI.leaf (hP.callee_leaf hk)
+  · exact hout k hk
+
+/-- …and the entry of a generated root becomes exactly its result: the IR mutation in this
+fragment is "a caller's IR is overwritten by its results". -/
+theorem C14_depthOne_caller_becomes_result (P : Prog) (hP : DepthOne P) (order : List Key)
+    (σ σ' : Store) (rs : List (Key × IrSets)) (h : generate P order σ = .ok (rs, σ'))
+    (f : Key) (res : IrSets) (hf : (f, res) ∈ rs) : σ' f = res := by
+  obtain ⟨hfst, hres, _, hin, _⟩ := generate_depthOne hP order σ σ' rs (Inv.refl P σ) h
+  have hfo : f ∈ order := by
+    rw [← hfst]
+    exact List.mem_map.mpr ⟨(f, res), hf, rfl⟩
+  have h1 := hin f hfo
+  have h2 := hres (f, res) hf
+  simp only at h2
+  rw [h2] at h1
+  injection h1 with h1
+  exact h1.symm
+
+/-- Generating a second time over the mutated IR returns the same results and leaves the IR as
+it is (`a |= b` with `b ⊆ a` adds nothing). -/
+theorem C14_depthOne_second_generation_same (P : Prog) (hP : DepthOne P) (order : List Key)
+    (σ σ' : Store) (rs : List (Key × IrSets)) (h : generate P order σ = .ok (rs, σ')) :
+    generate P order σ' = .ok (rs, σ') := by
+  obtain ⟨hfst, hres, hI, hin, hout⟩ := generate_depthOne hP order σ σ' rs (Inv.refl P σ) h
+  obtain ⟨rs2, σ2, h2⟩ := generate_depthOne_ok hP order σ' hI
+    (fun f hf => by rw [hin f hf]; rfl)
+  obtain ⟨hfst2, hres2, _, hin2, hout2⟩ := generate_depthOne hP order σ' σ2 rs2 hI h2
+  have e1 : rs2 = rs := results_unique (by rw [hfst, hfst2]) hres2 hres
+  have e2 : σ2 = σ' := by
+    funext k
+    by_cases hk : k ∈ order
+    · have a := hin k hk
+      have b := hin2 k hk
+      rw [a] at b
+      injection b with b
+      exact b.symm
+    · exact hout2 k hk
+  rw [h2, e1, e2]
+
+/-- non-vacuity: two callers sharing a leaf; the leaf keeps its IR, the callers do not. -/
+example : DepthOne P1 ∧ storeAfter P1 σ1 [0, 1, 2] 2 = some (σ1 2) ∧
+    storeAfter P1 σ1 [0, 1, 2] 0 ≠ some (σ1 0) :=
+  ⟨P1_depthOne, by decide +kernel, by decide +kernel⟩
 
 end Rattr.C14
